@@ -269,7 +269,8 @@ func (c Case) XML() string {
 	var sb strings.Builder
 	sb.WriteString(`<svg xmlns="http://www.w3.org/2000/svg" width="` + c.Width + `" height="` + c.Height + `"`)
 	if c.ViewBox != nil {
-		sb.WriteString(fmt.Sprintf(` viewBox="%s %s %s %s"`, num(c.ViewBox[0]), num(c.ViewBox[1]), num(c.ViewBox[2]), num(c.ViewBox[3])))
+		vsep := []string{" ", ",", ", "}[c.Sep]
+		sb.WriteString(` viewBox="` + num(c.ViewBox[0]) + vsep + num(c.ViewBox[1]) + vsep + num(c.ViewBox[2]) + vsep + num(c.ViewBox[3]) + `"`)
 	}
 	sb.WriteString(">")
 	for _, rules := range c.Rules {
